@@ -31,10 +31,14 @@ type c04Case struct {
 	MaxRead int    `json:"maxRead,omitempty"`
 	Yield   bool   `json:"yield,omitempty"`
 	// HandlerCalls: what the handler does with the client from inside its callback
-	// ("" nothing, "publish" a QoS0 publish, "done" Done()+Err(), "handle" re-registers itself)
+	// ("" nothing, "publish" a QoS0 publish, "done" Done()+Err(), "handle" re-registers itself, "mutate" overwrites
+	// every field of the message it was given)
 	HandlerCalls string `json:"handlerCalls,omitempty"`
 	// Outbound: number of QoS2 publishes issued by another goroutine while the inbound sequence is processed
 	Outbound int       `json:"outbound,omitempty"`
+	// End: "" the peer waits for the marker; "eof" / "eofWithData": right after its last packet the peer finishes sending
+	// (half-close; the client can still write its acknowledgements), the io.EOF arriving after resp. together with the last bytes
+	End string `json:"end,omitempty"`
 	Steps    []c04Step `json:"steps"`
 }
 
@@ -107,10 +111,11 @@ func c04Gen(rt *rapid.T) c04Case {
 		Handler:      rapid.SampledFrom([]string{"on", "on", "on", "off", "half"}).Draw(rt, "handler"),
 		MaxRead:      rapid.SampledFrom([]int{0, 0, 1, 2, 3, 7}).Draw(rt, "maxRead"),
 		Yield:        rapid.Bool().Draw(rt, "yield"),
-		HandlerCalls: rapid.SampledFrom([]string{"", "", "", "publish", "done", "handle"}).Draw(rt, "handlerCalls"),
+		HandlerCalls: rapid.SampledFrom([]string{"", "", "", "publish", "done", "handle", "mutate", "mutate"}).Draw(rt, "handlerCalls"),
 		Outbound:     rapid.SampledFrom([]int{0, 0, 0, 2, 5}).Draw(rt, "outbound"),
 	}
 	c.Steps = c04GenSteps(rt, 40)
+	c.End = rapid.SampledFrom([]string{"", "", "eof", "eofWithData"}).Draw(rt, "end")
 	if c.Handler == "half" {
 		c.HalfAt = rapid.IntRange(0, len(c.Steps)).Draw(rt, "halfAt")
 	}
@@ -258,6 +263,13 @@ func c04Drive(tb rapid.TB, r *baseRig, c c04Case) ([]vEvent, bool) {
 			_ = r.cli.Err()
 		case "handle":
 			r.cli.Handle(h)
+		case "mutate":
+			// the message belongs to the handler now ("ownership transferred"): a forwarding handler re-uses it
+			m.ID, m.Topic, m.QoS, m.Retain, m.Dup = m.ID^0x5555, "forwarded/"+m.Topic, (m.QoS+1)%3, !m.Retain, !m.Dup
+			for i := range m.Payload {
+				m.Payload[i] ^= 0xFF
+			}
+			m.Payload = append(m.Payload, 'Z')
 		}
 		r.log.add(1, "HE", nil, "")
 	})
@@ -299,7 +311,17 @@ func c04Drive(tb rapid.TB, r *baseRig, c c04Case) ([]vEvent, bool) {
 		r.peer.sync(20 * time.Second)
 		r.cli.Handle(h)
 	}
-	if !r.peer.sync(20 * time.Second) {
+	if c.End != "" {
+		r.conn.mu.Lock()
+		r.conn.eofWithData = c.End == "eofWithData"
+		r.conn.mu.Unlock()
+		r.conn.peerHalfClose()
+		select {
+		case <-r.cli.Done():
+		case <-time.After(20 * time.Second):
+			return nil, false
+		}
+	} else if !r.peer.sync(20 * time.Second) {
 		return nil, false
 	}
 	var obs []vEvent
